@@ -314,14 +314,14 @@ def rules_used(tree):
 
 # ---- rendering ----------------------------------------------------------------------------------
 
-NAME_POOL = ['x', 'foo', 'y1', '_', 'é', 'Ünï', 'a_b', 'self', 'ℂ', 'match', 'case', 'type', 'print', 'exec', 'nonloc', 'T', 'aa', 'l']
-NUMBER_POOL = ['1', '0', '23', '0x1f', '0o17', '0b101', '1_000', '1.5', '1.', '.5', '1e5', '1E-5', '1.5e+3', '2j', '1.e5j', '0_0',
+NAME_POOL = ['__future__', '__class__', 'x', 'foo', 'y1', '_', 'é', 'Ünï', 'a_b', 'self', 'ℂ', 'match', 'case', 'type', 'print', 'exec', 'nonloc', 'T', 'aa', 'l']
+NUMBER_POOL = ['09e1', '09j', '007J', '0_1j', '1.5j', '.5j', '1e3j', '1', '0', '23', '0x1f', '0o17', '0b101', '1_000', '1.5', '1.', '.5', '1e5', '1E-5', '1.5e+3', '2j', '1.e5j', '0_0',
                '0B1', '0XF_F', '1_0.0_1']
 STRING_POOL = ["'s'", '"d"', "''", '""', "'''t'''", '"""t\nu"""', "b'b'", 'B"b"', "r's\\d'", "R'r'", "u'u'", "rb'x'", "Rb'x'", "bR'x'",
                "'a\\'b'", '"a\\"b"', "'\\n\\x41\\u00e9'", "'\\N{DASH}'", "'é'", "'a\\\nb'", "'#'", "'{x}'"]
 STRING_POOL_IN_F = {"'": ['"d"', '""', 'b"b"', 'r"r"', '"é"'], '"': ["'s'", "''", "b'b'", "r'r'", "'é'"]}
 FSTRING_TEXT = ['a', 'a b', ' ', 'é', '{{', '}}', 'x{{y}}', '\\n', '#', 'a.b', '%s', '->']
-FORMAT_TEXT = ['>10', '10', '.2f', 'x', '^', ' ', 'd', '#x', ',']
+FORMAT_TEXT = ['\\t<10', '\\x20>8', '>10', '10', '.2f', 'x', '^', ' ', 'd', '#x', ',']
 
 
 def _literal(sym):
@@ -496,22 +496,45 @@ def expected_tree(tree, texts, root=True):
             kids.append(e)
     if rule == 'lambdef_nocond':
         rule = 'lambdef'
+    # documented grouping: every parameter (with annotation/default and its trailing comma) becomes a `param` node;
+    # a bare `*` (alone or directly followed by a comma) and the positional-only marker `/` stay operator leaves
+    if rule == 'parameters' and len(kids) >= 2:
+        kids = [kids[0]] + group_params(kids[1:-1]) + [kids[-1]]
+    elif rule == 'lambdef' and len(kids) >= 3:
+        kids = [kids[0]] + group_params(kids[1:-2]) + kids[-2:]
     if len(kids) == 1 and not root:
         return kids[0]
     return ('node', rule, kids)
+
+
+def group_params(inner):
+    out = []
+    chunk = []
+
+    def flush():
+        if not chunk:
+            return
+        first = chunk[0]
+        star = first == ('leaf', 'operator', '*')
+        slash = first == ('leaf', 'operator', '/')
+        if (star and (len(chunk) == 1 or chunk[1] == ('leaf', 'operator', ','))) or slash:
+            out.extend(chunk)
+        else:
+            out.append(('node', 'param', list(chunk)))
+        del chunk[:]
+    for k in inner:
+        chunk.append(k)
+        if k == ('leaf', 'operator', ','):
+            flush()
+    flush()
+    return out
 
 
 def actual_tree(n):
     ch = getattr(n, 'children', None)
     if ch is None:
         return ('leaf', n.type, n.value)
-    kids = []
-    for c in ch:
-        if c.type == 'param':
-            kids.extend(actual_tree(x) for x in c.children)
-        else:
-            kids.append(actual_tree(c))
-    return ('node', n.type, kids)
+    return ('node', n.type, [actual_tree(c) for c in ch])
 
 
 def tree_mismatch(exp, act, path='root'):
